@@ -48,10 +48,10 @@ ASSUMPTIONS = [
 ]
 PLAN = {
     "quick": {"pairs": "quick", "extra_pairs": 30, "triples": 16, "parts": 4, "cpu": 1.0, "cpu_hostile": 0.2,
-              "max_timeouts": 6, "unit_wall": 45,
+              "max_timeouts": 6, "unit_wall": 120,
               "shards": 128},
     "thorough": {"pairs": "all", "extra_pairs": 0, "triples": 400, "parts": 16, "cpu": 3.0, "cpu_hostile": 0.2,
-                 "max_timeouts": 20, "unit_wall": 300,
+                 "max_timeouts": 20, "unit_wall": 600,
                  "shards": 512},
 }
 REG = dict(level="exploration", min_nontrivial=40000, min_nontrivial_thorough=250000, max_inconc=0.02,
